@@ -7,6 +7,7 @@ side is Model/JsonLocate (`canUseDotNotation`, `escapeJqString`, `renderPath`, n
 import SuccinctlyVerif.Proof.JsonLocate
 import SuccinctlyVerif.Proof.JsonLocateLex
 import SuccinctlyVerif.Proof.JsonLocatePath
+import SuccinctlyVerif.Proof.JsonLocateIndex
 namespace SV.Props.C28
 open SV.Jq SV.JsonLocate
 
@@ -20,61 +21,56 @@ theorem lex_roundtrip (k : List Char) (fuel : Nat) (hf : k.length + 1 ≤ fuel) 
 example : escapeJqString ['a', '"', '\\', '\n', '\x01', '(', 'é'] =
     ['a', '\\', '"', '\\', '\\', '\\', 'n', '\x01', '(', 'é'] := by decide
 
-/-- **Dot notation (partial: ASCII keys).** For a key accepted by `can_use_dot_notation` whose
-characters are all ASCII, the jq lexer reads `.k` as the field token `k`.
-Missing for the unconditional statement – and false as the code stands (finding F11,
-`dot_notation_unsound_non_ascii`): `can_use_dot_notation` uses `char::is_alphabetic` /
-`is_alphanumeric`, jq identifiers are ASCII. -/
-theorem dot_notation_sound_partial (k rest : List Char) (h : canUseDotNotation k = true)
-    (hascii : ∀ c ∈ k, c.toNat < 128)
+/-- **Dot notation.** For every key accepted by `can_use_dot_notation` (an ASCII jq identifier that
+is not a reserved word – the source after the repair of C28-F1 / C28-F2), the jq lexer reads `.k`
+as the single field token `k`. No side condition. -/
+theorem dot_notation_sound (k rest : List Char) (h : canUseDotNotation k = true)
     (hrest : ∀ c, rest.head? = some c → isIdChar c = false)
     (fuel depth : Nat) (interp : Bool) (acc : List Tok) :
     lex (fuel + 1) ('.' :: (k ++ rest)) depth interp acc
       = lex fuel rest depth interp (.field (String.ofList k) :: acc) :=
-  dot_notation_sound k rest h hascii hrest fuel depth interp acc
+  SV.JsonLocate.dot_notation_sound k rest h hrest fuel depth interp acc
 
-/-- **F11 (finding), on the model.** `can_use_dot_notation("é")` holds, yet `.é` is not a jq
-program: the side condition of `dot_notation_sound_partial` cannot be dropped. -/
-theorem dot_notation_unsound_non_ascii :
-    canUseDotNotation ['é'] = true ∧ tokenize ".é" = none :=
-  ⟨canUseDotNotation_eacute, tokenize_dot_eacute⟩
+/-- Regression witnesses of the repaired findings: non-ASCII letters (C28-F2) and reserved words
+(C28-F1) are no longer printed in dot notation; ordinary identifiers still are. -/
+theorem dot_notation_regression :
+    canUseDotNotation ['é'] = false ∧ canUseDotNotation "then".toList = false ∧
+      canUseDotNotation "foo_1".toList = true :=
+  ⟨canUseDotNotation_eacute, canUseDotNotation_then, canUseDotNotation_foo⟩
 
-/-- Reserved words are fine for the jq grammar after a dot (`.then` is one field token) – the
-failures of finding F10 are on the side of the crate's own jq parser, not of the printed
-expression. -/
-theorem dot_reserved_word_is_field :
-    canUseDotNotation "then".toList = true ∧ tokenize ".then" = some [.field "then"] :=
-  ⟨canUseDotNotation_then, tokenize_dot_then⟩
-
-/-- ASCII keys accepted by `can_use_dot_notation` are jq identifiers. -/
-theorem dotOK_of_ascii (k : List Char) (h : canUseDotNotation k = true)
-    (hascii : ∀ c ∈ k, c.toNat < 128) : DotOK (.dotKey k) := by
+/-- Keys accepted by `can_use_dot_notation` are jq identifiers. -/
+theorem dotOK_of_canUse (k : List Char) (h : canUseDotNotation k = true) : DotOK (.dotKey k) := by
   cases k with
   | nil => simp [canUseDotNotation] at h
   | cons c r =>
-    have hc := hascii c (by simp)
     simp only [canUseDotNotation] at h
     split at h
     · cases h
     · rename_i hfirst
-      refine ⟨by simp, ?_, ?_⟩
-      · intro x hx
-        simp at hx; subst hx
-        rw [isAlphabetic_ascii c hc] at hfirst
+      have hs : isIdStart c = true := by
         simp only [isIdStart]
-        cases hA : c.isAlpha <;> simp_all
+        cases hA : c.isAlpha <;> cases hU : (c == '_') <;> simp_all
+      have h2 : (r.all fun c => c.isAlphanum || c == '_') = true := by
+        simp only [Bool.and_eq_true] at h; exact h.1
+      refine ⟨by simp, ?_, ?_⟩
+      · intro x hx; simp at hx; subst hx; exact hs
       · intro x hx
         simp at hx
         rcases hx with rfl | hx
-        · rw [isAlphabetic_ascii x hc] at hfirst
-          simp only [isIdChar, Char.isAlphanum]
-          cases hA : x.isAlpha <;> simp_all
-        · have := List.all_eq_true.mp h x hx
-          rw [isAlphanumeric_ascii x (hascii x (by simp [hx]))] at this
-          simpa [isIdChar] using this
+        · revert hs; simp only [isIdStart, isIdChar, Char.isAlphanum]
+          cases x.isAlpha <;> simp <;> exact fun h => Or.inr h
+        · exact List.all_eq_true.mp h2 x hx
+
+/-- Every component `path_to_bp` produces for an object member satisfies the side condition of
+`path_expr_sound`. -/
+theorem ofKey_dotOK (k : List Char) : DotOK (Comp.ofKey k) := by
+  unfold Comp.ofKey
+  split
+  · rename_i h; exact dotOK_of_canUse k h
+  · trivial
 
 /-- **Path expression.** For every value tree and every component path that exists in it, whose
-dot components are jq identifiers (`DotOK`; implied by `can_use_dot_notation` on ASCII keys) and
+dot components are jq identifiers (`DotOK`; holds for every component `path_to_bp` builds: `ofKey_dotOK`) and
 whose indices fit an `i64`, the rendered expression parses to the left-nested index chain and
 evaluating it (any dialect, any environment, any sufficient fuel) yields exactly the sub-value the
 path denotes. -/
@@ -96,5 +92,32 @@ theorem range_eq_partial {table : List Entry} {n off : Nat} {e : Entry}
 
 example : (renderPath [.dotKey ['a'], .index 10, .bracketKey ['x', '"', ' ']]) = ".a[10][\"x\\\" \"]".toList := by
   decide
+
+
+/-! ### node selection on the real index (C05 + C06 + C07) -/
+
+/-- **Node selection = preorder node of the document.** For every valid document (`Doc` of
+`Spec/JsonSimple`) below 4 GiB and every offset inside its text, `find_node_at_offset` on the index
+`JsonIndex::build` produces (C05 reference builder, C06 `index_structure`) returns the BP position
+of the open parenthesis of the k-th node in preorder, where k+1 is the number of node first bytes
+at positions ≤ offset (C07 `cursor_at_offset_eq`) – `None` before the first node. `at_offset` is
+this same function (`JsonCursor::cursor_at_offset`). -/
+theorem find_node_at_offset_eq (d : SV.JsonText.Doc) (off : Nat) (h : off < d.text.length)
+    (hsmall : d.text.length < SV.JsonIb.U32) :
+    (Idx.build d.text).findNodeAtOffset off =
+      (if SV.rankB true (SV.JsonNav.toksStdIb d.toks) (off + 1) = 0 then none
+       else SV.selectB true (SV.JsonNav.treeBp d.value)
+         (SV.rankB true (SV.JsonNav.toksStdIb d.toks) (off + 1) - 1)) :=
+  findNodeAtOffset_doc d off h hsmall
+
+/-- … and the text position of the node found is the last node first byte at or before the offset:
+the start of the reported byte range. -/
+theorem located_start_eq (d : SV.JsonText.Doc) (off p : Nat) (h : off < d.text.length)
+    (hsmall : d.text.length < SV.JsonIb.U32)
+    (hp : (Idx.build d.text).findNodeAtOffset off = some p) :
+    (Idx.build d.text).textPosition p =
+      (SV.selectB true (SV.JsonNav.toksStdIb d.toks)
+        (SV.rankB true (SV.JsonNav.toksStdIb d.toks) (off + 1) - 1)).filter (· < d.text.length) :=
+  textPosition_findNode_doc d off p h hsmall hp
 
 end SV.Props.C28
